@@ -153,15 +153,16 @@ func c16Run(precreate bool, L int) {
 			sym.Assert(bank.ModuleBalance(types.ModuleName, d).IsZero(), "module-account-keeps-nothing")
 		case 3: // change admin
 			d := denoms[sym.Choice("denom", len(denoms))]
-			na := who[sym.Choice("new-admin", 2)]
+			// hand over to A or B, or renounce control altogether (empty admin)
+			na := []string{c16A.String(), c16B.String(), ""}[sym.Choice("new-admin", 3)]
 			cctx, commit := ctx.CacheContext()
-			_, err := srv.ChangeAdmin(cctx, &types.MsgChangeAdmin{Denom: d, NewAdmin: na.String(), Metadata: c16Meta(me)})
+			_, err := srv.ChangeAdmin(cctx, &types.MsgChangeAdmin{Denom: d, NewAdmin: na, Metadata: c16Meta(me)})
 			if err == nil {
 				commit()
 				sym.Reach("change-admin-ok")
 				sym.Assert(exists[d], "admin-change-only-on-factory-denoms")
 				sym.Assert(admin[d] == me.String(), "admin-change-only-by-current-admin")
-				admin[d] = na.String()
+				admin[d] = na
 			} else {
 				sym.Reach("change-admin-rejected")
 			}
